@@ -220,16 +220,31 @@ pub fn exec(fields: &[&str]) -> String {
         }
         None => return "bad-case".to_owned(),
     };
+    // a rolls element `X<dir>`: the environment removes that directory (with everything in it) between
+    // two rolls while the roller object stays alive; `rm_before[i]` = directories removed before roll i
     let mut rolls: Vec<Option<Vec<u8>>> = vec![];
+    let mut ops: Vec<Result<usize, String>> = vec![];
     for r in dec_list(',', fields[7]) {
-        if r == "-" {
+        if let Some(d) = r.strip_prefix('X') {
+            match dec_str(d) {
+                Some(d) if !d.is_empty() && !d.starts_with('/') && !d.split('/').any(|c| c == "..") => ops.push(Err(d)),
+                _ => return "bad-case".to_owned(),
+            }
+        } else if r == "-" {
+            ops.push(Ok(rolls.len()));
             rolls.push(None);
         } else {
             match dec_bytes(&r) {
-                Some(b) => rolls.push(Some(b)),
+                Some(b) => {
+                    ops.push(Ok(rolls.len()));
+                    rolls.push(Some(b))
+                }
                 None => return "bad-case".to_owned(),
             }
         }
+    }
+    if bg.is_some() && ops.len() != rolls.len() {
+        return "bad-case".to_owned();
     }
     if kind != "fw" && kind != "del" {
         return "bad-case".to_owned();
@@ -301,7 +316,15 @@ pub fn exec(fields: &[&str]) -> String {
                 log4rs::verif_hooks::set_rotate_point(None);
                 out = o;
             } else {
-            for r in &rolls {
+            for op in &ops {
+                let r = match op {
+                    Ok(i) => &rolls[*i],
+                    Err(dir) => {
+                        let _ = std::fs::remove_dir_all(root.join(dir));
+                        out.push(format!("rm|{}", snapshot(&root)));
+                        continue;
+                    }
+                };
                 if let Some(b) = r {
                     if write_file(&root, &file, b).is_err() {
                         out.push("harness-cannot-write".to_owned());
@@ -361,6 +384,22 @@ const SHAPES_THOROUGH: &[Shape] = &[
     Shape { pattern: "a}{}{", file: "a", env: &[] },
 ];
 
+/// generator-internal encoding of a directory removal inside a rolls list (never a real content:
+/// contents are `r<k>:…`, `file<k>`, … and never start with a NUL byte)
+const RM_MARK: &[u8] = b"\0rmdir:";
+
+fn rm_op(dir: &str) -> Option<Vec<u8>> {
+    let mut v = RM_MARK.to_vec();
+    v.extend_from_slice(dir.as_bytes());
+    Some(v)
+}
+
+/// the directory (relative to the root) that holds the archive of index `i`, if it is not the root
+fn dir_of(sh: &Shape, i: u64) -> Option<String> {
+    let n = name_of(sh, i);
+    n.rfind('/').map(|k| n[..k].to_owned()).filter(|d| !d.is_empty())
+}
+
 fn name_of(sh: &Shape, i: u64) -> String {
     let mut s = sh.pattern.replace("{}", &i.to_string());
     for (k, v) in sh.env {
@@ -408,6 +447,8 @@ fn emit_case(
     let rolls_s: Vec<String> = rolls
         .iter()
         .map(|r| match r {
+            // a content that starts with the marker is a directory removal (see `rm_op`)
+            Some(b) if b.starts_with(RM_MARK) => format!("X{}", enc_str(std::str::from_utf8(&b[RM_MARK.len()..]).unwrap())),
             Some(b) => enc_bytes(b),
             None => "-".to_owned(),
         })
@@ -497,6 +538,36 @@ pub fn gen(rng: &mut Rng, n: usize, thorough: bool, emit: &mut dyn FnMut(String)
         emit_case(emit, "fw", &SHAPES[0], b, c, &[], &rolls);
     }
 
+    // large incompressible files through the compressing rollers: a codec that is fed in chunks must not
+    // lose the part of a chunk a short write did not take (independently seeded change C07_r5_2)
+    let big_sizes: &[usize] = if thorough { &[65_536, 65_537, 100_000, 150_000, 300_000] } else { &[100_000] };
+    for sh in [&SHAPES[9], &SHAPES[10]] {
+        for &sz in big_sizes {
+            let big: Vec<u8> = (0..sz).map(|_| rng.below(256) as u8).collect();
+            let rolls = vec![Some(b"small-1\n".to_vec()), Some(big), Some(b"small-2\n".to_vec())];
+            emit_case(emit, "fw", sh, 1, 2, &[], &rolls);
+        }
+    }
+
+    // the environment removes an archive directory between two rolls (clean-up job, operator): the next
+    // roll must recreate what it needs, no archive may be lost silently (seeded changes C06_r5_1, C08_r5_1,
+    // C17_r5_1 moved the directory creation into the builder)
+    for sh in [&SHAPES[1], &SHAPES[2], &SHAPES[3], &SHAPES[11], &SHAPES[5]] {
+        for (b, c) in [(0u64, 3u64), (1, 2), (3, 1)] {
+            for which in [b, b + c - 1, b + c] {
+                if let Some(dir) = dir_of(sh, which) {
+                    if sh.file.starts_with(&format!("{}/", dir)) {
+                        continue;
+                    }
+                    let mut rolls: Vec<Option<Vec<u8>>> = (0..c + 1).map(|k| Some(format!("pre{}\n", k).into_bytes())).collect();
+                    rolls.push(rm_op(&dir));
+                    rolls.extend((0..c + 1).map(|k| Some(format!("post{}\n", k).into_bytes())));
+                    emit_case(emit, "fw", sh, b, c, &[], &rolls);
+                }
+            }
+        }
+    }
+
     let mut shapes: Vec<&Shape> = SHAPES.iter().collect();
     if thorough {
         shapes.extend(SHAPES_THOROUGH.iter());
@@ -521,7 +592,16 @@ pub fn gen(rng: &mut Rng, n: usize, thorough: bool, emit: &mut dyn FnMut(String)
         let max_rolls = if is_bg { 8 } else if thorough || rng.chance(1, 4) { 12 } else { 7 };
         let n_rolls = rng.range(0, max_rolls) as usize;
         let missing_tail = rng.chance(1, 10);
-        let rolls = distinct_rolls(rng, n_rolls, thorough, missing_tail);
+        let mut rolls = distinct_rolls(rng, n_rolls, thorough, missing_tail);
+        if !is_bg && kind == "fw" && rolls.len() >= 2 && rng.chance(1, 6) {
+            let j = rng.range(0, c.max(1));
+            if let Some(dir) = dir_of(sh, b + j) {
+                if !sh.file.contains("$ENV") && !sh.file.starts_with(&format!("{}/", dir)) {
+                    let at = rng.range(1, rolls.len() as u64 - 1) as usize;
+                    rolls.insert(at, rm_op(&dir));
+                }
+            }
+        }
         // initial tree
         let mut init: Vec<(String, Vec<u8>)> = vec![];
         let add = |init: &mut Vec<(String, Vec<u8>)>, p: String, v: Vec<u8>| {
